@@ -71,6 +71,50 @@ Example C17_exactly_one_terminal_nonvacuous :
   length (gen_stream (mkG false false [104%N]) (mkOut [[72%N]; [105%N]] (FErr [98%N]))) = 3.
 Proof. split; [discriminate|]. vm_compute. split; reflexivity. Qed.
 
+(** what the handlers need from llm.LlamaServer.Completion.  For ANY callback trace (any number of final responses
+    anywhere, callbacks after a final response, any return value - e.g. "done then fault": a final response
+    followed by an error return), every request shape and every parser, the NDJSON stream carries exactly one
+    terminal record per final response plus one per error return ... *)
+Theorem C17_terminal_count : forall t,
+  (forall cfg, count_terminal (gen_trace_stream cfg t) = finals t + errs t) /\
+  (forall P cfg, count_terminal (chat_trace_stream P cfg t) = finals t + errs t).
+Proof. intros t. split; [intros; apply gen_trace_count|intros; apply chat_trace_count]. Qed.
+Print Assumptions C17_terminal_count.
+
+(** ... so "exactly one final message or one error" holds for the API stream iff it holds for Completion itself; and
+    when Completion keeps its contract ([contractb]: at most one final response, nothing after it, an error return
+    iff there is none - tested on the real llmServer.Completion against a scripted runner on every run), the stream
+    is the one of C17_exactly_one_terminal_partial: non-terminal records, then exactly one terminal record *)
+Theorem C17_exactly_one_terminal_under_contract : forall t, contractb t = true ->
+  (forall cfg, one_terminal_last is_terminal (gen_trace_stream cfg t)) /\
+  (forall P cfg, one_terminal_last is_terminal (chat_trace_stream P cfg t)).
+Proof.
+  intros t H. destruct (contract_trace t H) as (o & Hs & ->). split.
+  - intros cfg. rewrite gen_trace_of. apply gen_items_terminal; exact Hs.
+  - intros P cfg. rewrite chat_trace_of. apply chat_items_terminal; exact Hs.
+Qed.
+Print Assumptions C17_exactly_one_terminal_under_contract.
+
+(** the contract is needed: a Completion that delivers the final response and then reports a fault makes the handlers
+    send done:true AND an error line *)
+Theorem C17_done_then_fault_refuted :
+  ~ (forall t cfg, finals t >= 1 -> one_terminal_last is_terminal (gen_trace_stream cfg t)).
+Proof.
+  intros H.
+  specialize (H (mkTrace [CChunk [72%N]; CFinal [] RStop zeroc] (Some [69%N])) (mkG true false []) (le_n _)).
+  apply one_terminal_last_count in H. destruct H as [H _]. vm_compute in H. discriminate.
+Qed.
+Print Assumptions C17_done_then_fault_refuted.
+
+Example C17_contract_nonvacuous :
+  contractb (mkTrace [CChunk [72%N]; CFinal [] RStop zeroc] None) = true /\
+  contractb (mkTrace [CChunk [72%N]] (Some [69%N])) = true /\
+  contractb (mkTrace [CChunk [72%N]; CFinal [] RStop zeroc] (Some [69%N])) = false /\
+  contractb (mkTrace [CFinal [] RStop zeroc; CChunk [72%N]] None) = false /\
+  contractb (mkTrace [CChunk [72%N]] None) = false /\
+  count_terminal (gen_trace_stream (mkG true false []) (mkTrace [CChunk [72%N]; CFinal [] RStop zeroc] (Some [69%N]))) = 2.
+Proof. vm_compute. repeat split; reflexivity. Qed.
+
 (** the same through the OpenAI writers: one [DONE] marker or one error event, last *)
 Theorem C17_openai_exactly_one_terminal : forall o, ending o <> FSilent ->
   (forall u cfg, one_terminal_last sse_terminal (v1comp_stream u (gen_stream cfg o))) /\
